@@ -42,15 +42,18 @@ fn gen_long_string(rng: &mut Rng) -> String {
     let len = block * blocks + rng.below(4);
     let mut bytes: Vec<u8> = (0..len).map(|i| b"abcxyz 01"[i % 9]).collect();
     let mut extra_non_ascii: Option<(usize, char)> = None;
-    for _ in 0..rng.range(1, 3) {
+    for _ in 0..rng.range(1, 4) {
         let k = rng.range(1, blocks);
         let boundary = block * k;
-        match rng.below(6) {
+        match rng.below(8) {
             // CR is the last byte of one block, LF the first byte of the next
             0 | 1 | 2 if boundary < len => {
                 bytes[boundary - 1] = b'\r';
                 bytes[boundary] = b'\n';
             }
+            // a lone CR as the last byte of a block / a lone LF as the first byte of a block (not a pair)
+            5 if boundary < len && bytes[boundary] != b'\n' => bytes[boundary - 1] = b'\r',
+            6 if boundary < len && bytes[boundary - 1] != b'\r' => bytes[boundary] = b'\n',
             // wholly before / after the boundary
             3 if boundary + 1 < len => {
                 bytes[boundary] = b'\r';
